@@ -134,9 +134,45 @@ def tables(ctx):
             lean_v = "Verdict." + (kind if kind in ("accepted", "perThreadDep", "scopeInversion") else "other")
             pair_rows.append(("(%s, %s, %s, %s)" % (lf, _lean_bool(fpt), lg, _lean_bool(gpt)), lean_v,
                               {"f": [fscope, fpt], "g": [gscope, gpt], "verdict": verdict}))
+    # what a suite uses ITSELF: real Suite objects (injected attribute / setup_suite argument), enabled, marked disabled, or nested
+    # in a suite marked disabled, through the real check_fixtures_in_suites
+    import lemoncheesecake.api as lcc
+    from lemoncheesecake.suite.core import Suite, Test
+    suite_rows = []
+    for state in ("enabled", "disabledOwn", "disabledInherited"):
+        for how in ("injected", "setupArg"):
+            for gscope, lg, gpt in declarable:
+                g = _declare("g", [], gscope, gpt)
+                registry = FixtureRegistry()
+                registry.add_fixture(BuiltinFixture("cli_args", []))
+                registry.add_fixture(BuiltinFixture("project_dir", "."))
+                registry.add_fixtures(load_fixtures_from_func(g))
+                obj = type("S", (), {"g": lcc.inject_fixture("g")})() if how == "injected" else None
+                suite = Suite(obj, "s", "s")
+                if how == "setupArg":
+                    suite.add_hook("setup_suite", _mkfunc("setup_suite", ["g"], lambda **kw: None))
+                suite.add_test(Test("t", "t", lambda: None))
+                top = suite
+                if state == "disabledOwn":
+                    suite.disabled = True
+                elif state == "disabledInherited":
+                    top = Suite(None, "p", "p")
+                    top.disabled = True
+                    top.add_suite(suite)
+                assert suite.is_disabled() == (state != "enabled")
+                try:
+                    registry.check_fixtures_in_suites([top])
+                    verdict = "accepted"
+                except ValidationError as e:
+                    verdict = validation_verdict(e)
+                kind = verdict.split(":")[0]
+                lean_v = "SuiteVerdict." + (kind if kind in ("accepted", "suitePerThread", "suiteScope") else "other")
+                suite_rows.append(("(SuiteState.%s, SuiteHow.%s, %s, %s)" % (state, how, lg, _lean_bool(gpt)), lean_v,
+                                   {"suite": state, "how": how, "g": [gscope, gpt], "verdict": verdict}))
     imp = ("LccModel.Model.FixtureDecl",)
     return [C.Table("declTable", "List ((Scope × Bool) × Bool)", decl_rows, imports=imp),
             C.Table("pairTable", "List ((Scope × Bool × Scope × Bool) × Verdict)", pair_rows, imports=imp),
+            C.Table("suiteUseTable", "List ((SuiteState × SuiteHow × Scope × Bool) × SuiteVerdict)", suite_rows, imports=imp),
             C.Table("slotKeyTable", "List ((%s × Bool × %s) × Bool)" % (_WHERE, _WHERE), slot_key_rows(),
                     imports=("LccModel.Model.ThreadsCtx",))]
 
@@ -1060,6 +1096,23 @@ class Run(C.Stream):
          "suites": [{"nested": False, "phases": [[{"uses": [["pu_gen", False]]}, {"uses": [["pu_gen", True]], "disabled": True},
                                                   {"uses": [["pu_gen", False], ["ps_gen", False]], "disabled": True, "hold": True}]]},
                     {"nested": True, "phases": [[{"uses": [["pu_gen", False]], "disabled": True}, {"uses": [["pu_gen", False]], "hold": True}]]}]},
+        # options + an unusual input: a suite marked @lcc.disabled() that injects a per-thread fixture (lcc.inject_fixture()), run
+        # with --force-disabled on 3 workers.  REFUSED by the unchanged tree (suitePerThread, as the model predicts: the rule does
+        # not look at `disabled`); where it is accepted the suite set-up task evaluates the fixture ONCE and puts that thread's
+        # instance on the suite object, where the tests of all the workers read it (minimised failing input of the seeded change
+        # C15-11).  Then: the suite nested in a disabled suite, the fixture an argument of its setup_suite which keeps it; the
+        # controls — the same disabled suites using a SHARED fixture (accepted, run under the option), the enabled suite (refused)
+        {"nb_threads": 3, "mode": "chained", "fixtures": ["ps_plain"], "td_raise": None, "raise_setup": None, "force_disabled": True,
+         "suites": [{"nested": False, "disabled": True, "injects": ["ps_plain"], "phases": [[{"uses": [["ps_plain", False]]}] * 3]}]},
+        {"nb_threads": 3, "mode": "chained", "fixtures": ["pu_gen"], "td_raise": None, "raise_setup": None, "force_disabled": True,
+         "suites": [{"nested": False, "disabled": True, "phases": [[{"uses": [["pu_gen", False]]}] * 2]},
+                    {"nested": True, "setup_uses": "pu_gen", "setup_stores": True, "phases": [[{"uses": [["pu_gen", False]]}] * 3]}]},
+        {"nb_threads": 3, "mode": "chained", "fixtures": ["ps_plain", "pu_gen"], "td_raise": None, "raise_setup": None, "force_disabled": True,
+         "shared": ["sh_s", "sh_u"],
+         "suites": [{"nested": False, "disabled": True, "injects": ["sh_s", "sh_u"], "phases": [[{"uses": [["ps_plain", False]]}] * 3]},
+                    {"nested": True, "setup_uses": "sh_u", "setup_stores": True, "phases": [[{"uses": [["pu_gen", False]]}] * 3]}]},
+        {"nb_threads": 3, "mode": "chained", "fixtures": ["ps_plain"], "td_raise": None, "raise_setup": None,
+         "suites": [{"nested": False, "injects": ["ps_plain"], "phases": [[{"uses": [["ps_plain", False]]}] * 3]}]},
         # minimised failing input of the seeded change C15-5 (the suite teardown task only waits for the ENABLED tests)
         {"nb_threads": 2, "mode": "chained", "fixtures": ["pu_gen"], "td_raise": None, "raise_setup": None, "force_disabled": True,
          "suites": [{"nested": False, "phases": [[{"uses": [["pu_gen", False]]}, {"uses": [["pu_gen", False]], "disabled": True, "hold": True}]]}]},
@@ -1171,7 +1224,62 @@ class Run(C.Stream):
             case["force_disabled"] = rng.random() < 0.7
         elif rng.random() < 0.15:
             case["force_disabled"] = True          # the option without any disabled test
+        # what a SUITE uses itself, and suites marked @lcc.disabled() (own flag; a nested suite inherits it): fixtures injected
+        # with lcc.inject_fixture() — a shared one (allowed), a per-thread one or a test-scoped one (refused, whether the suite
+        # is disabled or not and whatever --force-disabled says: under the option a disabled suite IS set up, by one thread)
+        if rng.random() < 0.4:
+            self._gen_suite_level(rng, case)
         return case
+
+    @staticmethod
+    def _has_forbidden(case):
+        """does the generated project already contain a shape the validation refuses? (generation bias only: at most one
+        forbidden shape per project, so that relaxing ONE rule yields an otherwise valid project)"""
+        info = fxinfo(case)
+        for m in info.values():
+            for p in m["params"]:
+                if (info[p]["pt"] and m["scope"] != "test") or _LEVEL[info[p]["scope"]] < _LEVEL[m["scope"]]:
+                    return True
+        for sd in case["suites"]:
+            for n in ([sd["setup_uses"]] if sd.get("setup_uses") else []) + list(sd.get("injects") or []):
+                if info[n]["pt"] or info[n]["scope"] == "test":
+                    return True
+        return False
+
+    def _gen_suite_level(self, rng, case):
+        shared = list(case.get("shared") or [])
+        test_scoped = [d["name"] for d in case.get("extra") or [] if d["scope"] == "test"]
+        pts = list(case["fixtures"]) + [d["name"] for d in case.get("extra") or [] if d["per_thread"]]
+        any_disabled = False
+
+        def pick_shared(k):
+            names = sorted(rng.sample(sorted(SHARED), k))
+            for n in names:
+                if n not in shared:
+                    shared.append(n)
+            shared.sort()
+            case["shared"] = shared
+            return names
+
+        for sd in case["suites"]:
+            if rng.random() < 0.5:
+                sd["disabled"] = True
+                any_disabled = True
+            if rng.random() < 0.6:
+                r = rng.random()
+                if r < 0.5 or self._has_forbidden(case):
+                    sd["injects"] = pick_shared(rng.choice([1, 1, 2]))
+                elif r < 0.92 or not test_scoped:
+                    sd["injects"] = [rng.choice(pts)]
+                else:
+                    sd["injects"] = [rng.choice(test_scoped)]
+            if not sd.get("setup_uses") and rng.random() < 0.25:
+                # the other way a suite uses a fixture itself: an argument of its setup_suite
+                sd["setup_uses"] = pick_shared(1)[0] if (rng.random() < 0.5 or self._has_forbidden(case)) else rng.choice(pts)
+            if sd.get("setup_uses") and rng.random() < 0.6:
+                sd["setup_stores"] = True        # setup_suite keeps what it was given (self.x = x), the tests read it
+        if any_disabled and rng.random() < 0.75:
+            case["force_disabled"] = True
 
     # ---- what the project declares, for the model ------------------------------------------------------
     @staticmethod
@@ -1191,7 +1299,8 @@ class Run(C.Stream):
                     info = fxinfo(case)
                     args = [("via_" + fx if via and info.get(fx, {}).get("pt") else fx) for fx, via in tdesc["uses"]]
                     tests.append({"path": "%s.t%d_%d_%d" % (path, si, pi, ti), "args": args, "parameters": [], "disabled": bool(tdesc.get("disabled"))})
-            node = {"path": path, "disabled": False, "injected": [], "setup_args": [sdesc["setup_uses"]] if sdesc.get("setup_uses") else [],
+            node = {"path": path, "disabled": bool(sdesc.get("disabled")), "injected": list(sdesc.get("injects") or []),
+                    "setup_args": [sdesc["setup_uses"]] if sdesc.get("setup_uses") else [],
                     "tests": tests, "subs": []}
             if nested:
                 prev_top["subs"].append(node)
@@ -1335,8 +1444,11 @@ class Run(C.Stream):
         over = {}               # suite name -> names of its tests that are over (body ended or teardown_test reached)
         running_total = {}      # suite name -> number of its tests that are run (enabled, or disabled and forced)
 
+        suite_dis = {"cur": False, "top": False}     # is the suite being built disabled (own flag or an enclosing suite's)?
+        suite_store = {}                             # suite name -> what its setup_suite was given (when it keeps it)
+
         def runs(tdesc):
-            return force or not tdesc.get("disabled")
+            return force or not (tdesc.get("disabled") or suite_dis["cur"])
 
         def setup_test(test):
             cur.suite = test.parent_suite.name
@@ -1371,15 +1483,28 @@ class Run(C.Stream):
 
         top, prev_top, prev_last = [], None, None
         for si, sdesc in enumerate(case["suites"]):
-            suite = Suite(None, "s%d" % si, "suite %d" % si)
+            injects = list(sdesc.get("injects") or [])
+            obj = None
+            if injects:
+                # as written by the user: class attributes `x = lcc.inject_fixture("name")` of the suite class
+                obj = type("SuiteObj%d" % si, (), {"inj_%d" % k: lcc.inject_fixture(n) for k, n in enumerate(injects)})()
+            suite = Suite(obj, "s%d" % si, "suite %d" % si)
+            is_nested = bool(sdesc["nested"] and prev_top is not None)
+            if sdesc.get("disabled"):
+                suite.disabled = True
+            suite_dis["cur"] = bool(sdesc.get("disabled")) or (is_nested and suite_dis["top"])
+            if not is_nested:
+                suite_dis["top"] = suite_dis["cur"]
             suite.add_hook("setup_test", setup_test)
             suite.add_hook("teardown_test", teardown_test)
             running_total[suite.name] = sum(1 for ph in sdesc["phases"] for t in ph if runs(t))
             if sdesc.get("setup_uses"):
-                def setup_suite_impl(sname="s%d" % si, **kw):
+                def setup_suite_impl(sname="s%d" % si, stores=bool(sdesc.get("setup_stores")), **kw):
                     for p, v in kw.items():
                         if isinstance(v, Inst) and v.pt:
                             rec("use", v.key, v.n, "suite-setup:" + sname, "suite-setup", True)
+                    if stores:
+                        suite_store[sname] = dict(kw)
                 suite.add_hook("setup_suite", _mkfunc("setup_suite", [sdesc["setup_uses"]], setup_suite_impl))
             tests = []
             for pi, phase in enumerate(sdesc["phases"]):
@@ -1390,7 +1515,16 @@ class Run(C.Stream):
                     args = [("via_" + fx if via and info[fx]["pt"] else fx) for fx, via in tdesc["uses"]]
                     name = "t%d_%d_%d" % (si, pi, ti)
 
-                    def body(uses=tdesc["uses"], hold=bool(tdesc.get("hold")), sname=suite.name, tname=name, **kw):
+                    def body(uses=tdesc["uses"], hold=bool(tdesc.get("hold")), sname=suite.name, tname=name, sobj=obj,
+                             attrs=tuple("inj_%d" % k for k in range(len(injects))), **kw):
+                        # what the suite itself obtained (injected attributes, what setup_suite kept) as the test sees it
+                        for how, vals in (("injected", [getattr(sobj, a, None) for a in attrs]),
+                                          ("from-setup_suite", list(suite_store.get(sname, {}).values()))):
+                            for v in vals:
+                                if isinstance(v, Inst) and v.pt:
+                                    rec("use", v.key, v.n, cur.test, how, False)
+                                for w in nested(v, set()):
+                                    rec("use", w.key, w.n, cur.test, "nested", False)
                         for fx, via in uses:
                             via = via and info[fx]["pt"]
                             v = kw["via_" + fx if via else fx]
@@ -1627,7 +1761,7 @@ class Run(C.Stream):
     def nontrivial(self, case, obs):
         if obs["result"] == "rejected":
             # a forbidden dependency shape, refused by the real validation as the model predicts
-            return bool(case.get("extra")) or any(s.get("setup_uses") for s in case["suites"])
+            return bool(case.get("extra")) or any(s.get("setup_uses") or s.get("injects") for s in case["suites"])
         n_use, width = self._shape(obs)
         return n_use >= 2 and width >= 2 and "barrier-broken" not in obs["notes"]
 
@@ -1645,6 +1779,22 @@ class Run(C.Stream):
                 f.append("dep:%s%s-on-%s%s" % ("pt-" if d["per_thread"] else "", d["scope"], "pt-" if dep.get("pt") else "", dep.get("scope")))
         if any(s.get("setup_uses") for s in case["suites"]):
             f.append("setup_suite-takes-a-fixture")
+        force_ = bool(case.get("force_disabled"))
+        par_dis = False
+        for s_ in case["suites"]:
+            own = bool(s_.get("disabled"))
+            inh = bool(s_["nested"]) and par_dis
+            if not s_["nested"]:
+                par_dis = own
+            dis = own or inh
+            if dis:
+                f.append("suite-disabled-" + ("own-flag" if own else "inherited") + ("-forced" if force_ else "-not-run"))
+            for n in list(s_.get("injects") or []) + ([s_["setup_uses"]] if s_.get("setup_uses") else []):
+                m = info.get(n, {})
+                kind = "per-thread" if m.get("pt") else ("test-scoped" if m.get("scope") == "test" else "shared")
+                f.append("suite-uses-itself:%s-fixture%s" % (kind, (":suite-disabled" + ("-forced" if force_ else "")) if dis else ""))
+        if any(ev[0] == "use" and ev[5] in ("injected", "from-setup_suite") for ev in obs["trace"]):
+            f.append("per-thread-instance-read-from-the-suite-object")
         if any(ev[0] == "use" and str(ev[5]).startswith("param:") for ev in obs["trace"]):
             f.append("per-thread-instance-received-as-fixture-parameter")
         if any(ev[0] == "use" and ev[5] == "nested" for ev in obs["trace"]):
@@ -1714,7 +1864,7 @@ class Run(C.Stream):
         # drop a declared fixture nobody refers to any more / a use of an extra fixture / a suite's setup_suite argument
         extra = case.get("extra") or []
         referenced = {p for d in extra for p in d["params"]} | {fx for s in case["suites"] for ph in s["phases"] for t in ph for fx, _ in t["uses"]} \
-            | {s.get("setup_uses") for s in case["suites"]}
+            | {s.get("setup_uses") for s in case["suites"]} | {n for s in case["suites"] for n in s.get("injects") or []}
         for i, d in enumerate(extra):
             if d["name"] not in referenced:
                 c = copy.deepcopy(case)
@@ -1725,6 +1875,16 @@ class Run(C.Stream):
                 c = copy.deepcopy(case)
                 c["suites"][si].pop("setup_uses")
                 yield c
+            for flag in ("injects", "disabled", "setup_stores"):
+                if s.get(flag):
+                    c = copy.deepcopy(case)
+                    c["suites"][si].pop(flag)
+                    yield c
+            if len(s.get("injects") or []) > 1:
+                for k in range(len(s["injects"])):
+                    c = copy.deepcopy(case)
+                    del c["suites"][si]["injects"][k]
+                    yield c
             for pi, ph in enumerate(s["phases"]):
                 for ti, t in enumerate(ph):
                     if len(t["uses"]) > 1:
